@@ -350,11 +350,10 @@ def check_message_call(ctx, oid="C16.2", kinds=("p2wpkh", "p2wsh")):
             v = rules.unfz(v)
             if tm.veq(tm._fz(v), tm._fz(ins)):
                 return True
-            if isinstance(v, T) and v.op == "map" and v.args[2] is None:
-                it = rules.unfz(v.args[1])
-                if isinstance(it, T) and it.op == "enumerate":
-                    it = rules.unfz(it.args[0])
-                return tm.veq(tm._fz(it), tm._fz(ins))
+            while isinstance(v, T) and ((v.op == "map" and v.args[2] is None) or v.op == "enumerate"):
+                v = rules.unfz(v.args[1] if v.op == "map" else v.args[0])  # one element per element, in order (nested maps too)
+                if tm.veq(tm._fz(v), tm._fz(ins)):
+                    return True
             return False
         okins = isinstance(ins, T) and ins.op == "loopout" and ins.args[0] in sel_lists and bool(txc) and all(same_list(c[1][0]) for c in txc if c[1])
         R.check(oid, "PROV", fi, "%s: messages are built over the selection loop's own input list, in selection order, and the transaction carries that list" % kind, okins,
